@@ -34,6 +34,13 @@ What "the same structure" means here (nothing more is demanded):
     *benign* top-level text (a hostile top-level string next to quoted markup is
     inherently ambiguous and not a defect).
 
+The HTML5 tokenizer below was cross-checked off-line against html5lib 1.1 (the
+copy vendored in pip, run under python3.7: its HTMLTokenizer for HTML content,
+its full parser for svg content) on ~54000 documents - every document of the
+quick tier plus variants with the escaping undone again: identical results but
+for 3 documents with U+0000 directly after '<!--' / '<!---', where html5lib
+follows an older draft of the comment-start states.
+
 Preconditions (outside them the case is not generated): tag and attribute names
 are valid, lower case, and are not HTML raw-text/RCDATA/foreign-breakout names;
 bytes content is UTF-8; for the XML parser the content only uses characters
